@@ -319,7 +319,7 @@ def main(argv=None) -> int:
         from engines.sqlsmt.scalar import equiv
 
         e = sqlglot.parse_one(w["sql"])
-        out = simplify(e.copy(), constant_propagation=bool(w.get("cp")))
+        out = simplify(e.copy(), constant_propagation=bool(w.get("cp")), coalesce_simplification=bool(w.get("cs")))
         r = equiv(e, out)
         fails = r["verdict"] == "sat"
         if fails:
